@@ -216,6 +216,8 @@ class Aggregate:
         self.cells = set()
         self.extra = collections.Counter()
         self.worker_wall = 0.0
+        self.enum_nontrivial = 0
+        self.enum_digests = {}
 
     def add(self, task, reply):
         if "error" in reply:
@@ -225,6 +227,8 @@ class Aggregate:
                 self.errors.append((task.get("index"), reply["error"], reply.get("traceback", "")))
             return
         rep = reply["report"]
+        if reply.get("cmd") == "enum":
+            return self.add_enum(task, reply)
         self.evaluations += 1
         self.worker_wall += reply.get("wall", 0.0)
         self.fired.update(rep.get("fired", {}))
@@ -251,6 +255,35 @@ class Aggregate:
         if reply.get("trace") is not None and len(self.samples) < 3 and not rep["violations"]:
             self.samples.append({"trace": reply["trace"], "outcome": {
                 k: rep.get(k) for k in ("fired", "returned", "rejected", "interrupted", "digest")}})
+
+
+def _add_enum(self, task, reply):
+    rep = reply["report"]
+    self.evaluations += rep["evaluations"]
+    self.worker_wall += reply.get("wall", 0.0)
+    self.fired.update(rep.get("fired", {}))
+    self.probes.update(rep.get("probes", {}))
+    self.site_totals.update(rep.get("site_totals", {}))
+    self.states.update(rep.get("states", []))
+    self.transition_keys.update(rep.get("transition_keys", []))
+    self.steps += rep.get("steps", 0)
+    self.by_config["enumerated-single-fault"] += rep["evaluations"]
+    self.by_jit["jit_on" if task.get("_jit") else "jit_off"] += rep["evaluations"]
+    for k in ("returned", "rejected", "interrupted", "ops"):
+        setattr(self, k, getattr(self, k) + rep.get(k, 0))
+    self.requests += rep.get("returned", 0) + rep.get("rejected", 0)
+    self.extra["enum_histories"] += 1
+    self.extra["enum_ops_fully_enumerated"] += rep.get("enumerated_ops", 0)
+    self.extra["enum_single_fault_cases"] += rep.get("single_fault_cases", 0)
+    self.extra["enum_cases_fault_site_not_reached"] += rep.get("cases_fault_not_reached", 0)
+    self.extra["enum_histories_truncated"] += 1 if rep.get("truncated") else 0
+    self.enum_nontrivial += rep.get("single_fault_cases", 0) - rep.get("cases_fault_not_reached", 0)
+    self.enum_digests[(task["index"], bool(task.get("_jit")))] = rep["digest"]
+    for v in rep.get("violations", []):
+        self.violations.append((task, {"trace": v["trace"], "report": {"violations": [v["violation"]]}}))
+
+
+Aggregate.add_enum = _add_enum
 
 
 def run_check(prop, tier, plan, seed):
@@ -281,6 +314,13 @@ def run_check(prop, tier, plan, seed):
             if un:
                 print(f"[yadsim] wall cap reached: {un} runs not issued (jit={jit})", flush=True)
                 agg.extra["runs_not_issued_wall_cap"] += un
+        if plan.get("enum_runs"):
+            etasks = [{"cmd": "enum", "prop": prop, "seed": seed, "index": i, "tier": tier, "params": {},
+                       "watchdog": plan.get("enum_watchdog", 3600), "max_cases": plan.get("enum_max_cases", 600),
+                       "_jit": False} for i in range(plan["enum_runs"])]
+            un = run_tasks(etasks, nworkers, False, 0, logdir, agg.add, wall_cap=plan.get("enum_wall_cap"))
+            if un:
+                agg.extra["enum_histories_not_issued_wall_cap"] += un
         t_main = time.monotonic() - t_start
         # ---------------- phase B: determinism re-execution ----------------
         det = {"reexecuted": 0, "mismatches": 0, "modes": []}
